@@ -769,7 +769,7 @@ fn server_slots() {
         for round in 0..12usize {
             let mut s = tokio::net::TcpStream::connect(("127.0.0.1", port)).await.map_err(|e| format!("connect: {}", e))?;
             match round % 4 {
-                0 => { if !served(&mut s, 3000).await { return Ok((churned, format!("connection {} (the only one open) was not served within 3 s", round))); } }   // clean close after one request
+                0 => { if !served(&mut s, 8000).await { return Ok((churned, format!("connection {} (the only one open) was not served within 8 s", round))); } }   // clean close after one request
                 1 => { let _ = s.write_all(b"*2\r\n$3\r\nGE").await; }                       // ends in the middle of a frame
                 2 => { let _ = s.write_all(b"*1\r\n$4\r\nNOPE\r\n").await; let mut b = [0u8; 64]; let _ = tokio::time::timeout(std::time::Duration::from_millis(300), s.read(&mut b)).await; }   // unknown command
                 _ => { let _ = s.write_all(b"!garbage\r\n").await; let mut b = [0u8; 64]; let _ = tokio::time::timeout(std::time::Duration::from_millis(300), s.read(&mut b)).await; }   // protocol error
@@ -782,7 +782,7 @@ fn server_slots() {
         {
             let mut a = tokio::net::TcpStream::connect(("127.0.0.1", port)).await.map_err(|e| format!("connect: {}", e))?;
             let mut b = tokio::net::TcpStream::connect(("127.0.0.1", port)).await.map_err(|e| format!("connect: {}", e))?;
-            if !served(&mut a, 3000).await || !served(&mut b, 3000).await { return Ok((churned, "two concurrent connections were not both served within 3 s".into())); }
+            if !served(&mut a, 8000).await || !served(&mut b, 8000).await { return Ok((churned, "two concurrent connections were not both served within 8 s".into())); }
             for _ in 0..2 {
                 let r = tokio::net::TcpStream::connect(("127.0.0.1", port)).await.map_err(|e| format!("connect: {}", e))?;
                 #[allow(deprecated)]
@@ -797,15 +797,15 @@ fn server_slots() {
         // two at once must be served ...
         let mut a = tokio::net::TcpStream::connect(("127.0.0.1", port)).await.map_err(|e| format!("connect: {}", e))?;
         let mut b = tokio::net::TcpStream::connect(("127.0.0.1", port)).await.map_err(|e| format!("connect: {}", e))?;
-        if !served(&mut a, 3000).await { return Ok((churned, "after the churn the first of two concurrent connections was not served within 3 s (slots leaked)".into())); }
-        if !served(&mut b, 3000).await { return Ok((churned, "after the churn the second of two concurrent connections was not served within 3 s (slots leaked)".into())); }
+        if !served(&mut a, 8000).await { return Ok((churned, "after the churn the first of two concurrent connections was not served within 8 s (slots leaked)".into())); }
+        if !served(&mut b, 8000).await { return Ok((churned, "after the churn the second of two concurrent connections was not served within 8 s (slots leaked)".into())); }
         // ... a third one must wait ...
         let mut t = tokio::net::TcpStream::connect(("127.0.0.1", port)).await.map_err(|e| format!("connect: {}", e))?;
         if served(&mut t, 500).await { return Ok((churned, "a third connection was served while two others were open (max_connections = 2)".into())); }
         // ... until one of the two closes (its request is already in the socket)
         drop(a);
         let mut buf = [0u8; 5]; let mut n = 0;
-        while n < 5 { match tokio::time::timeout(std::time::Duration::from_millis(3000), t.read(&mut buf[n..])).await { Ok(Ok(k)) if k > 0 => n += k, _ => return Ok((churned, "the waiting third connection was not served within 3 s after one of the two closed".into())) } }
+        while n < 5 { match tokio::time::timeout(std::time::Duration::from_millis(8000), t.read(&mut buf[n..])).await { Ok(Ok(k)) if k > 0 => n += k, _ => return Ok((churned, "the waiting third connection was not served within 8 s after one of the two closed".into())) } }
         drop(b); drop(t);
         let _ = stop_tx.send(());
         let _ = tokio::time::timeout(std::time::Duration::from_secs(10), srv).await;
@@ -1257,7 +1257,7 @@ mod store {
     /// C18 (bounded, real time): the background tasks of the real store with a 25 ms check interval.
     ///  (a) policy never, triggers exceeded            -> no merge within 500 ms
     ///  (b) policy always, no trigger exceeded         -> no merge within 500 ms
-    ///  (c) policy always, dead bytes above the trigger -> a merge within 3 s, without any client action
+    ///  (c) policy always, dead bytes above the trigger -> a merge within 8 s, without any client action
     /// A merge shows as a change of the set of data files (it always creates files with higher ids).
     pub fn background() {
         use bitcask::storage::bitcask::VerifMergePolicy as MergePolicy;
@@ -1273,12 +1273,12 @@ mod store {
             for i in 0..12 { h.set(b("k"), b(&format!("value-{}", i))).unwrap(); }     // 11 dead entries spread over several files
             let before = files(dir.path());
             let names = |v: &Vec<String>| -> Vec<String> { v.iter().filter(|f| f.contains(".data")).map(|f| f.split(':').next().unwrap().to_string()).collect() };
-            let deadline = std::time::Instant::now() + std::time::Duration::from_millis(if expect_merge { 3000 } else { 500 });
+            let deadline = std::time::Instant::now() + std::time::Duration::from_millis(if expect_merge { 8000 } else { 500 });
             let mut merged = false;
             while std::time::Instant::now() < deadline { if names(&files(dir.path())) != names(&before) { merged = true; break; } std::thread::sleep(std::time::Duration::from_millis(10)); }
             let hist = format!("{}: 12 overwrites of one key with 64-byte files, check interval 25 ms, jitter 0.2, trigger dead_bytes {} fragmentation {}; no client action afterwards", name, trig_dead, trig_frag);
             if merged != expect_merge {
-                report("background", "C18", &hist, if merged { format!("a merge ran: data files {:?} -> {:?}", names(&before), names(&files(dir.path()))) } else { "no merge ran within 3 s".to_string() },
+                report("background", "C18", &hist, if merged { format!("a merge ran: data files {:?} -> {:?}", names(&before), names(&files(dir.path()))) } else { "no merge ran within 8 s".to_string() },
                        if expect_merge { "a merge within one check interval plus jitter (plus slack)" } else { "no merge" });
             }
             if h.get(b("k")).ok().flatten().as_deref() != Some(b"value-11".as_ref()) { report("background", "C18", &hist, "k does not read value-11 afterwards".into(), "value-11"); }
@@ -1303,10 +1303,10 @@ mod store {
             std::thread::sleep(std::time::Duration::from_millis(400));      // several wake-ups whose merge (or rollover) fails
             for id in blocked.iter() { let _ = std::fs::remove_file(dir.path().join(format!("{}.bitcask.data", id))); }
             let before = ids(dir.path());
-            let deadline = std::time::Instant::now() + std::time::Duration::from_millis(4000);
+            let deadline = std::time::Instant::now() + std::time::Duration::from_millis(9000);
             let mut merged = false;
             while std::time::Instant::now() < deadline { let mut a = ids(dir.path()); let mut b0 = before.clone(); a.sort(); b0.sort(); if a != b0 { merged = true; break; } std::thread::sleep(std::time::Duration::from_millis(10)); }
-            if !merged { report("background", "C18", "policy always, dead bytes above the trigger; the first merge passes fail because the id of their output is occupied by a stray file; the stray files are removed; no client action afterwards", "no merge ran within 4 s after the obstacle was removed (the background task has ended)".to_string(), "a merge at the next wake-up"); }
+            if !merged { report("background", "C18", "policy always, dead bytes above the trigger; the first merge passes fail because the id of their output is occupied by a stray file; the stray files are removed; no client action afterwards", "no merge ran within 9 s after the obstacle was removed (the background task has ended)".to_string(), "a merge at the next wake-up"); }
         }
         run("policy never, triggers exceeded", MergePolicy::Never, 0, 0.0, false);
         run("policy always, no trigger exceeded", MergePolicy::Always, u64::MAX, 1.0, false);
